@@ -133,6 +133,15 @@ def random_hpo(rng, n_extra):
 
 
 def random_ic(rng, edges):
+    ic = _random_ic(rng, edges)
+    if rng.random() < 0.3:
+        # entries for terms the ontology does not have (an IC table computed on a newer release): they concern no pair of its terms
+        for extra in rng.sample(['HP:9999990', 'HP:9999991', 'ZZ:1', 'owl:Thing', 'HP:0000000', 'MP:0000118'], rng.randrange(1, 4)):
+            ic[extra] = rng.choice([0, 3, 40, 1000])
+    return ic
+
+
+def _random_ic(rng, edges):
     nodes = gl.nodes_of(edges)
     style = rng.choice(['arbitrary', 'monotone', 'missing', 'zero', 'sparse'])
     ic = {}
